@@ -372,7 +372,24 @@ def main():
         i = a.index("--only")
         only = a[i + 1]
         del a[i:i + 2]
-    if a[0] == "gen":
+    if a[0] == "gen" and len(a) > 1:
+        # gen <file>: the file changed in /repo since the sweep began - replace its mutants by fresh ones of the current HEAD
+        ms = [m for m in load() if m["file"] != a[1]]
+        files = anchored_files()
+        text = open(os.path.join(REPO, a[1])).read()
+        head = sh(["git", "-C", REPO, "rev-parse", "--short", "HEAD"])[1].strip()
+        nid = max(m["id"] for m in ms) + 1
+        for m in mutants_of(a[1], text):
+            try:
+                ast.parse((text.encode()[:m["a"]] + m["new"].encode() + text.encode()[m["b"]:]).decode())
+            except SyntaxError:
+                continue
+            m.update(props=files[a[1]], id=nid, head=head)
+            nid += 1
+            ms.append(m)
+        save(ms)
+        print(len(ms), "mutants now")
+    elif a[0] == "gen":
         cmd_gen()
     elif a[0] == "tests":
         cmd_tests(jobs)
